@@ -13,13 +13,42 @@ import StepModel.ComplexSpec
 * `addSimpleAndSubs`: a subtype without subtypes is a `SimpleList`; otherwise its own list's head (original or
   `copyList` copy — same shape) is used, wrapped as `OR(simple, head)` when the subtype is not ABSTRACT.
 
-The recursion follows the subtype graph; `fuel` bounds its depth (number of entities + 1 suffices for acyclic schemas;
-running out of fuel yields `none`, never a made-up tree).
+The recursion over an expression is structural; the recursion through the subtype graph is on `fuel` (two units per
+generation; running out of fuel yields `none`, never a made-up tree).
 -/
 namespace StepModel.Complex
 
 inductive Parent | superHead | andL | andorL | orL
   deriving DecidableEq, Repr
+
+mutual
+  /-- `MultList::processSubExp`: the children that expression `x` adds to a list of kind `p`; `T` builds the tree of an
+  entity reference (`addSimpleAndSubs`) -/
+  def exprKids (T : Name → Option Tree) : Parent → Expr → Option (List Tree)
+    | _, .ent n => (T n).map (fun t => [t])
+    | p, .and a b =>
+      match exprKids T .andL a, exprKids T .andL b with
+      | some l, some r => if p = .andL then some (l ++ r) else some [.and (l ++ r)]
+      | _, _ => none
+    | p, .andor a b =>
+      match exprKids T .andorL a, exprKids T .andorL b with
+      | some l, some r => if p = .andorL then some (l ++ r) else some [.andor (l ++ r)]
+      | _, _ => none
+    | _, .oneof es => (exprKidsL T es).map (fun cs => [.or cs])
+  /-- the operands of a ONEOF, each processed with the new `OrList` as parent -/
+  def exprKidsL (T : Name → Option Tree) : List Expr → Option (List Tree)
+    | [] => some []
+    | x :: xs =>
+      match exprKids T .orL x, exprKidsL T xs with
+      | some l, some r => some (l ++ r)
+      | _, _ => none
+end
+
+def mapOpt {α β : Type} (f : α → Option β) : List α → Option (List β)
+  | [] => some []
+  | a :: as => match f a, mapOpt f as with
+    | some b, some bs => some (b :: bs)
+    | _, _ => none
 
 mutual
   /-- `MultList::addSimpleAndSubs` -/
@@ -40,7 +69,7 @@ mutual
     | fuel + 1, e =>
       let base : Option (List Tree) := match e.expr with
         | none => some []
-        | some x => exprChildren s fuel .superHead x
+        | some x => exprKids (fun n => entTree s fuel n) .superHead x
       match base with
       | none => none
       | some b =>
@@ -49,51 +78,9 @@ mutual
         let known := match e.expr with | none => [] | some _ => e.name :: leavesL b
         let impl := e.subs.filter (fun n => !known.contains n)
         if impl.isEmpty then some (.and (.simple e.name :: b))
-        else match entTrees s fuel impl with
+        else match mapOpt (fun n => entTree s fuel n) impl with
           | none => none
           | some ts => some (.and [.simple e.name, .andor (b ++ ts)])
-
-  def entTrees (s : Schema) : Nat → List Name → Option (List Tree)
-    | 0, _ => none
-    | _ + 1, [] => some []
-    | fuel + 1, n :: ns =>
-      match entTree s fuel n, entTrees s fuel ns with
-      | some t, some ts => some (t :: ts)
-      | _, _ => none
-
-  /-- `MultList::processSubExp`: children that expression `x` adds to a list of kind `p` -/
-  def exprChildren (s : Schema) : Nat → Parent → Expr → Option (List Tree)
-    | 0, _, _ => none
-    | fuel + 1, p, x =>
-      match x with
-      | .ent n => (entTree s fuel n).map (fun t => [t])
-      | .and a b =>
-        if p = .andL then
-          match exprChildren s fuel .andL a, exprChildren s fuel .andL b with
-          | some l, some r => some (l ++ r)
-          | _, _ => none
-        else
-          match exprChildren s fuel .andL a, exprChildren s fuel .andL b with
-          | some l, some r => some [.and (l ++ r)]
-          | _, _ => none
-      | .andor a b =>
-        if p = .andorL then
-          match exprChildren s fuel .andorL a, exprChildren s fuel .andorL b with
-          | some l, some r => some (l ++ r)
-          | _, _ => none
-        else
-          match exprChildren s fuel .andorL a, exprChildren s fuel .andorL b with
-          | some l, some r => some [.andor (l ++ r)]
-          | _, _ => none
-      | .oneof es => (exprChildrenL s fuel es).map (fun cs => [.or cs])
-
-  def exprChildrenL (s : Schema) : Nat → List Expr → Option (List Tree)
-    | 0, _ => none
-    | _ + 1, [] => some []
-    | fuel + 1, x :: xs =>
-      match exprChildren s fuel .orL x, exprChildrenL s fuel xs with
-      | some l, some r => some (l ++ r)
-      | _, _ => none
 end
 
 /-- insertion by supertype name, as `ComplexCollect::insert` (`*cl < *c` is strict: equal names keep arrival order) -/
